@@ -88,3 +88,40 @@ def run(rep, prop, family, tier, seed, counter):
                      r.script + "".join("# " + l + "\n" for l in lines[r.name][:40]), ext="concscript")
     rep.violation(p, what)
     return 1
+
+
+TAGS = {"cleanup-race": "graceover", "load-race": "incoherent", "destroy-race": "resurrect"}
+
+
+def replay(rep, prop, path, repeats=3):
+    """`bin/check Cxx --replay <file>.concscript`: run the recorded scenario again (a few times: schedules vary) on the current tree"""
+    with open(path) as f:
+        script = "".join(l for l in f if l.strip() and not l.startswith(("//", "#")))
+    m = re.search(r"^directed (\S+)", script, re.M)
+    family = m.group(1) if m else "?"
+    tag = TAGS.get(family)
+    if tag is None:
+        rep.say("not a scenario of a concurrent family: " + path)
+        return 0
+    hbin = env.build_harness("race")
+    found = []
+    with env.scratch("verif-concr-") as d:
+        for i in range(repeats):
+            name = "replay:%d" % i
+            r = run_scenario(hbin, name, script, d)
+            out = os.path.join(d, re.sub(r"[^A-Za-z0-9]", "_", name) + ".out")
+            if os.path.exists(out):
+                with open(out, errors="replace") as f:
+                    found += [l.rstrip("\n") for l in f if l.startswith(tag + " ")]
+            if found:
+                break
+    rep.cov["replayed_scenario"] = family
+    rep.cov["replay_runs"] = i + 1
+    rep.cov["replay_reports"] = len(found)
+    if found:
+        first = found[0].split(" ", 3)
+        what = "%s (replayed scenario, %s; iteration %s): %s" % (FAMILIES.get(family, ("", "", "an ended session was obtainable after the ending call had returned"))[2],
+                                                               first[2], first[1], first[3] if len(first) > 3 else "")
+        rep.violation(path, what)
+        return 1
+    return 0
